@@ -20,6 +20,7 @@ left alone.
        duplication), so that a value prepared per branch and the call made per branch have one form
   N35  nested `if a: if b: S` without else branches  ==  `if a and b: S`
   N36  in a boolean position `len(tuple(x for x in it if c))`  ==  `any(c for x in it)`
+  N38  `reduce(f, seq, init)` (first thing a statement evaluates)  ==  `acc = init; for y in seq: acc = f(acc, y)`
   N37  `return a if c else b`                         ==  `if c: return a` followed by `return b`
 """
 import ast
@@ -191,6 +192,43 @@ def rewrite_blocks(fn):
                 blk[i:i + 1] = [loc(ast.If(test=v.test, body=[loc(ast.Return(value=v.body), st)], orelse=[]), st), loc(ast.Return(value=v.orelse), st)]
                 changed = True
                 continue
+            # N38: `reduce(f, seq, init)` is the loop `acc = init; for y in seq: acc = f(acc, y)`
+            holder = None
+            if isinstance(st, ast.For):
+                holder = ('iter', st.iter)
+            elif isinstance(st, (ast.Assign, ast.Return)) and st.value is not None:
+                holder = ('value', st.value)
+            if holder is not None:
+                root = holder[1]
+                red = root
+                if isinstance(root, ast.Call) and isinstance(root.func, ast.Attribute) and all(canon.is_pure(a) for a in root.args) and not root.keywords:
+                    red = root.func.value           # `reduce(...).split()`
+                if isinstance(red, ast.Call) and ast.unparse(red.func) in ('reduce', 'six.reduce', 'functools.reduce', 'six.moves.reduce') \
+                        and len(red.args) == 3 and not red.keywords and isinstance(red.args[0], (ast.Name, ast.Lambda)) \
+                        and canon.is_pure(red.args[1]) and canon.is_pure(red.args[2]):
+                    acc, y = _fresh('acc', taken), _fresh('item', taken)
+                    fcall = ast.Call(func=red.args[0], args=[_name(acc), _name(y)], keywords=[])
+                    if isinstance(red.args[0], ast.Lambda) and len(red.args[0].args.args) == 2:
+                        lam = red.args[0]
+                        class _S(ast.NodeTransformer):
+                            def visit_Name(self, n, _m={lam.args.args[0].arg: acc, lam.args.args[1].arg: y}):
+                                return _name(_m[n.id], like=n) if n.id in _m and isinstance(n.ctx, ast.Load) else n
+                        fcall = _S().visit(copy.deepcopy(lam.body))
+                    new = [ast.Assign(targets=[_name(acc, ast.Store())], value=red.args[2], type_comment=None),
+                           ast.For(target=_name(y, ast.Store()), iter=red.args[1],
+                                   body=[ast.Assign(targets=[_name(acc, ast.Store())], value=fcall, type_comment=None)], orelse=[], type_comment=None)]
+                    repl = _name(acc)
+                    if red is root:
+                        setattr(st, holder[0], repl)
+                    else:
+                        root.func.value = repl
+                    for n in new:
+                        for x in ast.walk(n):
+                            loc(x, st)
+                    blk[i:i] = new
+                    changed = True
+                    i += 2
+                    continue
             # N24
             if isinstance(st, ast.Try) and st.orelse and not st.finalbody and _handlers_leave(st):
                 blk[i + 1:i + 1] = st.orelse
@@ -211,8 +249,8 @@ def rewrite_blocks(fn):
                 if isinstance(a, ast.Assign) and len(a.targets) == 1 and isinstance(a.targets[0], ast.Name) \
                         and isinstance(u, ast.AugAssign) and isinstance(u.target, ast.Name) and isinstance(u.value, ast.Name) \
                         and u.value.id == a.targets[0].id and u.target.id != u.value.id and loads(u.value.id) == 1 \
-                        and not nested_uses(u.value.id) and not nested_uses(u.target.id) \
-                        and u.target.id not in _names_in(a.value):
+                        and not nested_uses(u.value.id) and not nested_uses(u.target.id):
+                    # (the call cannot re-bind the local target, so reading it before or after the call is the same)
                     st.body = [loc(ast.AugAssign(target=u.target, op=u.op, value=a.value), a)]
                     del blk[i + 1]
                     changed = True
